@@ -39,7 +39,9 @@ attempt <base> <att> <att> <att> <hr> <ck> <cn> <tr> <tm> <chainN> [c<crashed>]
   message `x` (no usable answer) or `<rcode>:<ad>:<tc>:<body>`; body = `E|S|O` (owner of the last
   address record: none / the MX name / another name) for a and aaaa, `-` for cname, `<rec>,…` or
   `-` for the TLSA questions. The model is run with the tree's transport (`udpOnly`).
-* `<ck>` = `e:nf | e:ot | ok:<ad>:<E|S|O>`, `<cn>` = `e:nf | e:ot | ok:<0|1>`,
+* `<ck>` = `x/<addr>/<addr>` (the A answer and the AAAA answer of the scripted world, AD bit per answer;
+  combined by the model's `checkAddr`) or one `<addr>` (the result of `CheckCNAMEAD` itself, older op
+  lines); `<addr>` = `e:nf | e:ot | ok:<ad>:<E|S|O>`, `<cn>` = `e:nf | e:ot | ok:<0|1>`,
   `<tr>`/`<tm>` = `<-|nf|ot>:<ad>:<rec>,<rec>,…` (`-` for no record), `<fut>` = `ok | e:nf | e:ot | e:na`.
 * tokens of the form `z=…` are harness-side replay information and are ignored.
 -/
@@ -120,7 +122,7 @@ def parseRecs (toks : List String) : Option (List Rec) := toks.mapM parseRec
 def parseLErr (s : String) : Option LErr :=
   if s == "nf" then some .notFound else if s == "ot" then some .other else none
 
-def parseCk (s : String) : Option (Except LErr (Bool × RName)) :=
+def parseAddr (s : String) : Option AddrAns :=
   match s.splitOn ":" with
   | ["e", k] => do pure (.error (← parseLErr k))
   | ["ok", ad, rn] => do
@@ -128,6 +130,14 @@ def parseCk (s : String) : Option (Except LErr (Bool × RName)) :=
     let rn ← (if rn == "E" then some RName.empty else if rn == "S" then some RName.same
               else if rn == "O" then some RName.other else none)
     pure (.ok (ad, rn))
+  | _ => none
+
+/-- `<ck>`: the result of `CheckCNAMEAD` as shipped (old form), or `x/<a>/<aaaa>` — the A and the AAAA
+answer of the scripted world, each with its own AD bit; the model's `checkAddr` combines them -/
+def parseCk (s : String) : Option (Except LErr (Bool × RName)) :=
+  match s.splitOn "/" with
+  | ["x", a, a6] => do pure (checkAddr (← parseAddr a) (← parseAddr a6))
+  | [one] => parseAddr one
   | _ => none
 
 def parseCn (s : String) : Option (Except LErr Bool) :=
